@@ -74,12 +74,44 @@ REGISTRY = {
         'explanation': 'queue and dispatch-order contracts discharged by z3',
     },
     'C04': {
-        'modules': ['contracts.core_dispatch', 'contracts.core_values'], 'level': 'proof',
+        'modules': ['contracts.core_dispatch', 'contracts.core_values', 'contracts.core_tasks'], 'level': 'proof',
         'level_text': 'Per-handler case analysis of the dispatcher loop body for an arbitrary iteration (loop invariant), contracts on '
                       '_eventDone, processTask and Value.setValue: results stored once in order, one exception (+ one failure) event per '
                       'raising handler with the loop continuing, success fired iff requested, no handler raised and none is waiting.',
         'level_note': 'trusted: handlers as callbacks with the stated rely; sys.exc_info as three non-None opaque values; generators '
                       'driven by next/send/throw are opaque callbacks.',
         'explanation': 'dispatcher/result contracts discharged by z3',
+    },
+    'C05': {
+        'modules': ['contracts.core_dispatch', 'contracts.core_tasks'], 'level': 'proof',
+        'level_text': 'Completion tracking as per-operation contracts: _fire links a new event to the tracked current event and counts it; '
+                      'the _eventDone walk decrements once per finished closure, fires <name>_complete exactly when a counter reaches '
+                      'zero and was requested, deletes the tracking attributes and ascends; _dispatcher and processTask finish the '
+                      'event or leave a waiting handler on every path and run handlers/generator steps as the current event.',
+        'level_note': 'safety only: "always eventually fired" is decided as "no path skips the step progress depends on"; '
+                      'cardinality of the set of live descendants is carried by the effects counter itself (no set-cardinality proof).',
+        'explanation': 'completion-tracking contracts discharged by z3',
+        'not_decided': ['liveness of completion', 'global counting invariant effects = 1 + #live children (only per-operation steps)'],
+    },
+    'C06': {
+        'modules': ['contracts.core_tasks'], 'level': 'proof',
+        'level_text': 'processTask (which drives generators through next/send/throw, modelled as callbacks) keeps the bookkeeping '
+                      'invariant waitingHandlers = live generator frames on every branch and reschedules the caller whenever the '
+                      'callee finishes or fails; closures of waitEvent remove what they installed. The cross-yield protocol of the '
+                      'waitEvent/callEvent generator bodies has only a bounded stand-in.',
+        'level_note': 'trusted protocol facts about waitEvent/callEvent generators (first yield = state, last = CallValue); '
+                      'resumption "exactly once with the result" across yields is bounded (labelled).',
+        'explanation': 'task bookkeeping contracts discharged by z3; generator protocol bounded',
+        'not_decided': ['waitEvent/callEvent generator bodies across yields (bounded stand-in)', 'timeouts'],
+    },
+    'C08': {
+        'modules': ['contracts.core_tasks', 'contracts.core_run', 'contracts.core_dispatch'], 'level': 'proof',
+        'level_text': 'stop(): no effect when not running, otherwise flag cleared, exactly one stopped event, inline ticks iff no loop '
+                      'thread, SystemExit(code) iff a code was given; run(): exactly one started, loop exit implies not running and '
+                      'empty queue, fade-out ticks, exit code propagation; KeyboardInterrupt/SystemExit in handlers and generator '
+                      'steps map to stop().',
+        'level_note': 'partial correctness only (no liveness); stop from a second thread not decided; tick() by its contract.',
+        'explanation': 'run/stop contracts discharged by z3',
+        'not_decided': ['liveness ("keeps processing until stop")', 'stop() from a second thread'],
     },
 }
